@@ -167,6 +167,10 @@ THEOREMS = [
     "Verif.C18.export_tiff_page_count",
     "Verif.C18.export_tiff_roundtrip",
     "Verif.C18.stack_export_is_mixin_export",
+    "Verif.C18.software_tag_fixed_point",
+    "Verif.C18.software_tag_keeps_original",
+    "Verif.C18.legacy_detection_spec",
+    "Verif.C18.exported_file_not_legacy",
 ]
 RULE = (
     "corpus + exhaustive small scope + seeded random + malformed stream. stack: real TIFF stacks written with tifffile "
@@ -1512,6 +1516,96 @@ def oracle_glue(case, ia):
     return None
 
 
+# ------------------------------------------------------------------ software kind (Software tag, legacy detection)
+
+
+def pylake_version():
+    import lumicks.pylake as lk
+
+    return str(lk.__version__)
+
+
+def raw_software(path):
+    import tifffile
+
+    with tifffile.TiffFile(path) as t:
+        tg = t.pages[0].tags
+        return tg["Software"].value if "Software" in tg else ""
+
+
+def impl_software(case):
+    """a two-page camera TIFF (DateTime T:T+8, T+10:T+18) whose Software tag is the case's string, with or without the
+    exposure key: [0] the Software tag ImageStack.export_tiff writes, [1] the tag after exporting that export again,
+    [2] whether pylake reads the file as a legacy export (frame ranges reconstructed start-to-next-start: T:T+10, T+10:T+20).
+    "?" when tifffile does not hand the Software string back unchanged."""
+    from lumicks.pylake import ImageStack
+
+    obs = case["_obs"] = {}
+    sw, key = case["sw"], case["key"]
+    T = bt.T0
+    p1, p2, p3 = fresh("sw1"), fresh("sw2"), fresh("sw3")
+    try:
+        with warnings.catch_warnings():
+            warnings.simplefilter("ignore")
+            d = {"Camera": "verif"}
+            if key:
+                d["Exposure time (ms)"] = 5e-6
+            try:
+                write_pages(p1, [f"{T}:{T + 8}", f"{T + 10}:{T + 18}"], sw, [d, d])
+                if raw_software(p1) != sw:
+                    return ["?", "?", "?"]
+            except Exception:
+                return ["?", "?", "?"]
+            out = []
+            try:
+                st = ImageStack(p1)
+                try:
+                    ranges = [(int(a) - T, int(b) - T) for a, b in st.frame_timestamp_ranges(include_dead_time=True)]
+                    st.export_tiff(p2)
+                finally:
+                    st.close()
+                obs["sw1"] = raw_software(p2)
+                out.append(enc_list([ord(ch) for ch in obs["sw1"]]))
+                st = ImageStack(p2)
+                try:
+                    obs["ranges2"] = [(int(a) - T, int(b) - T) for a, b in st.frame_timestamp_ranges(include_dead_time=True)]
+                    st.export_tiff(p3)
+                finally:
+                    st.close()
+                obs["sw2"] = raw_software(p3)
+                out.append(enc_list([ord(ch) for ch in obs["sw2"]]))
+                obs["ranges"] = ranges
+                out.append("T" if ranges == [(0, 10), (10, 20)] else "F" if ranges == [(0, 8), (10, 18)] else f"ranges:{ranges}")
+                return out
+            except Exception as e:
+                obs["error"] = repr(e)
+                return (out + [errname(e)] * 3)[:3]
+    finally:
+        rm(p1, p2, p3)
+
+
+def ops_software(case):
+    sw = enc_list([ord(ch) for ch in case["sw"]])
+    ver = enc_list([ord(ch) for ch in pylake_version()])
+    return [f"c18.software {sw} {ver} F", f"c18.software {sw} {ver} T", f"c18.islegacy {sw} {enc_bool(case['key'])}"]
+
+
+def oracle_software(case, ia):
+    if ia[0] == "?":
+        return None
+    obs = case.get("_obs", {})
+    if "sw2" not in obs:
+        return f"export-refused: a readable camera TIFF could not be opened / exported twice: {obs.get('error')}"
+    if obs["sw1"] != obs["sw2"]:
+        return f"re-export: Software tag {obs['sw1']!r} becomes {obs['sw2']!r} when the exported file is exported again"
+    if not obs["sw1"].startswith(case["sw"]):
+        return f"metadata: Software tag {case['sw']!r} was replaced by {obs['sw1']!r}"
+    want = obs["ranges"]  # what the stack reported is what its export must say on re-reading (exported files are never legacy)
+    if obs["ranges2"] != want:
+        return f"timestamps: frame ranges {want} of the stack are read back from its export as {obs['ranges2']}"
+    return None
+
+
 # ------------------------------------------------------------------ datetime / legacy kinds
 
 
@@ -1662,6 +1756,8 @@ def impl(case):
         return impl_exposure(case)
     if k == "glue":
         return impl_glue(case)
+    if k == "software":
+        return impl_software(case)
     raise ValueError(k)
 
 
@@ -1681,6 +1777,8 @@ def ops(case):
         return ops_exposure(case)
     if k == "glue":
         return ops_glue(case)
+    if k == "software":
+        return ops_software(case)
     raise ValueError(k)
 
 
@@ -1717,6 +1815,8 @@ def oracle(case, ia):
         return oracle_exposure(case, ia)
     if k == "glue":
         return oracle_glue(case, ia)
+    if k == "software":
+        return oracle_software(case, ia)
     raise ValueError(k)
 
 
@@ -2121,6 +2221,12 @@ def cases(tier, rng):
                 for clip in (False, True):
                     yield dict(glue_case(frames, dtype, clip, dead, exp), stream="small-scope")
 
+    # ---------------- Software tag / legacy detection
+    for sw in ["", "Bluelake", "Bluelake 2.5.1", "Pylake v1.3.0", "Pylake", "pylake", "PYLAKE 1.0", "PyLaKe", "Bluelake 2.1, Pylake v1.2.1", "Pylak", "Pylak e",
+               "xPylakex", "ylake", "Py lake", "P", "Bluelake, pylake", "pyPylake", "PylakPylake", "Pylake,", "tifffile.py", "B, Pylake v9, Pylake v10"]:
+        for key in (False, True):
+            yield {"stream": "small-scope", "kind": "software", "sw": sw, "key": key}
+
     # ---------------- confocal: small scope
     conf = []
     levels = {"u8": [3, 60, 400], "u16": [3, 20000, 90000], "f32": [3, 2**22, 2**25]}
@@ -2297,6 +2403,12 @@ def cases(tier, rng):
         dead = [[t0 + j * per, t0 + (j + 1) * per] for j in range(nd)]
         exp = [[t0 + j * per, t0 + j * per + sub.choice([0, 1, per, sub.randint(0, per), int(sub.loguniform(1, EXPOSURE_EXACT))])] for j in range(ne)]
         yield dict(glue_case(frames, dtype, sub.chance(0.5), dead, exp), stream="random", subseed=i)
+    r = rng.fork("c18-software")
+    for i in range(30 if quick else 1000):
+        sub = r.fork(i)
+        parts = [sub.choice(["Pylake", "pylake", "PYLAKE", "Pylak", "ylake", "Bluelake", "v1.2", ", ", " ", "P", "y", "l", "a", "k", "e", "E", "x"]) for _ in range(sub.randint(0, 6))]
+        sw = "".join(parts).strip()
+        yield {"stream": "random", "kind": "software", "sw": sw, "key": sub.chance(0.5), "subseed": i}
     r = rng.fork("c18-exposure")
     for i in range(40 if quick else 1500):
         sub = r.fork(i)
